@@ -14,6 +14,9 @@ struct Ctx {
     next_h: u32,
     live: Vec<u32>, // handles believed alive
     nclients: u32,
+    // peers whose unacknowledged amount stopped moving (the other end is not acknowledging at all): peer -> that amount
+    dead_unacked: std::collections::BTreeMap<String, u64>,
+    stall: std::collections::BTreeMap<String, (u64, usize)>,
 }
 
 impl Ctx {
@@ -60,8 +63,8 @@ impl Ctx {
     /// step everybody until nothing has been received and nothing is queued for `silent` rounds
     fn drain(&mut self, cap: usize) -> (bool, usize) {
         let mut silent = 0;
-        // a download runs on a worker thread in real time: rounds spent waiting for one are slept through and, for up to five
-        // seconds in all, not counted against the cap (a loaded machine can take a second to serve one request)
+        // a download runs on a worker thread and renet's acknowledgements and resends run in real time: rounds spent waiting for
+        // nothing but those are slept through and, for up to five seconds in all, not counted against the cap
         let mut waited = std::time::Duration::ZERO;
         let mut cap = cap;
         let mut round = 0;
@@ -72,6 +75,7 @@ impl Ctx {
             }
             let mut quiet = true;
             let mut only_transfers = true;
+            let mut unacked_now: std::collections::BTreeMap<String, u64> = Default::default();
             for v in &self.s.trace[before..] {
                 if v["ev"] == "frame" {
                     if v["recv"].as_array().map(|a| !a.is_empty()).unwrap_or(false) {
@@ -96,6 +100,41 @@ impl Ctx {
                             quiet = false;
                         }
                     }
+                    // sent and not acknowledged: a dropped datagram comes back after renet's resend time, however many frames pass
+                    if let Some(links) = st["unacked_links"].as_object() {
+                        for (k, n) in links {
+                            unacked_now.insert(format!("{}/{}", v["peer"], k), n.as_u64().unwrap_or(0));
+                        }
+                    }
+                }
+            }
+            // ... unless a peer's amount has not moved for twice renet's resend time: the other side is not acknowledging at all
+            // (a link that is dead without either end having noticed — D7's stuck hand-overs), which is not traffic; remembered
+            // across drains for as long as the amount stays what it was
+            for (p, n) in unacked_now {
+                if n == 0 {
+                    self.stall.remove(&p);
+                    self.dead_unacked.remove(&p);
+                    continue;
+                }
+                // a dead link stays dead while its amount only grows (new sends, never an acknowledgement)
+                if let Some(d) = self.dead_unacked.get(&p).cloned() {
+                    if n >= d {
+                        self.dead_unacked.insert(p.clone(), n);
+                        continue;
+                    }
+                    self.dead_unacked.remove(&p);
+                }
+                let e = self.stall.entry(p.clone()).or_insert((n, 0));
+                if e.0 == n {
+                    e.1 += 1;
+                } else {
+                    *e = (n, 0);
+                }
+                if e.1 >= 300 {
+                    self.dead_unacked.insert(p, n);
+                } else {
+                    quiet = false;
                 }
             }
             if self.s.panicked.is_some() {
@@ -172,7 +211,7 @@ fn fault_history(seed: u64, idx: usize, out: &mut impl Write) {
         let without_b: Vec<Ty> = PeerCfg::default().registered.into_iter().filter(|t| *t != Ty::B).collect();
         if to_host { host_cfg.registered = without_b } else { client_cfg.registered = without_b }
     }
-    let mut c = Ctx { s: Session::new(false, host_cfg), rng: rng.fork(), next_h: 0, live: vec![], nclients };
+    let mut c = Ctx { s: Session::new(false, host_cfg), rng: rng.fork(), next_h: 0, live: vec![], nclients, dead_unacked: Default::default(), stall: Default::default() };
     for k in 0..nclients {
         let cfg = if k == 0 || case >= 17 { PeerCfg { registered: client_cfg.registered.clone(), materials: client_cfg.materials, meshes: client_cfg.meshes, audios: client_cfg.audios, ..PeerCfg::default() } } else { PeerCfg::default() };
         c.s.add_client(cfg, rng.below(3));
@@ -387,7 +426,7 @@ fn slow_endpoint_case(c: &mut Ctx) {
 fn conn_history(seed: u64, idx: usize, thorough: bool, out: &mut impl Write) {
     let mut rng = Rng::new(seed.wrapping_mul(9_000_011) ^ (idx as u64) ^ 0xC0);
     let nclients: u32 = if rng.chance(1, 3) { 2 } else { 1 };
-    let mut c = Ctx { s: Session::new(rng.chance(1, 5), PeerCfg::default()), rng: rng.fork(), next_h: 0, live: vec![], nclients };
+    let mut c = Ctx { s: Session::new(rng.chance(1, 5), PeerCfg::default()), rng: rng.fork(), next_h: 0, live: vec![], nclients, dead_unacked: Default::default(), stall: Default::default() };
     for _ in 0..nclients {
         c.s.add_client(PeerCfg::default(), rng.below(3));
     }
@@ -415,13 +454,25 @@ fn conn_history(seed: u64, idx: usize, thorough: bool, out: &mut impl Write) {
     // (above it renet refuses the join; below it the snapshot takes dozens of frames)
     if idx % 10 == 7 {
         let k = rng.range(6, 17);
+        // the byte length of every message the snapshot of this world consists of, as the crate encodes them
+        let (spawn_len, marker_len) = Session::plain_msg_lens();
+        let mut sizes: Vec<usize> = vec![];
         for j in 0..k {
             let h = c.fresh();
             let mut v = CVal::new(Ty::V, 9 + j as i64);
             v.list = (0..512 * 1024).map(|i| ((i + j) % 251) as u64).collect();
             c.s.spawn(0, h, true, &[v, CVal::new(Ty::A, j as i64)], None);
+            sizes.push(spawn_len);
+            if let Some(e) = c.s.local_entity(0, h) {
+                for ty in [Ty::V, Ty::A] {
+                    if let Some(n) = c.s.comp_msg_len(0, e, ty) {
+                        sizes.push(n);
+                    }
+                }
+            }
         }
-        c.s.trace.push(json!({"ev":"heavy_world","entities":k,"bytes":k * 512 * 1024}));
+        sizes.push(marker_len);
+        c.s.trace.push(json!({"ev":"heavy_world","entities":k,"bytes":k * 512 * 1024,"msg_sizes":sizes}));
     }
     // frames before anything is started
     for _ in 0..rng.below(3) { c.s.step(0); c.s.step(1); }
@@ -617,7 +668,7 @@ fn history(family: &str, seed: u64, idx: usize, thorough: bool, out: &mut impl W
         }
         cfg
     };
-    let mut c = Ctx { s: Session::new(v6, cfg_for(family)), rng, next_h: 0, live: vec![], nclients };
+    let mut c = Ctx { s: Session::new(v6, cfg_for(family)), rng, next_h: 0, live: vec![], nclients, dead_unacked: Default::default(), stall: Default::default() };
     for _ in 0..nclients {
         let shift = c.rng.below(4);
         c.s.add_client(cfg_for(family), shift);
